@@ -67,4 +67,7 @@ def run(repo, tier) -> Result:
     check_calculate_driver("C02", res, repo, want=("R-SKIP", "R-SWEEP"))
     check_resume("C02", res, repo.method("hexital.core.indicator", "Indicator", "_find_calc_index"), "self.candles", "membership")
     check_collapse_targets("C02", res, repo)
+    from ..contracts import check_all
+
+    check_all("C02", res, repo)
     return res
